@@ -13,7 +13,7 @@ FILE *g_out;
 const char *g_probe_names[] = {
 	"short_read", "short_write", "eagain_midrecord", "eagain_boundary", "send_blocked",
 	"header_split", "record_16384", "clock_jump_during_handshake", "tls13_pad_gt0", "quiesced",
-	"fault_fired", "one_byte_segments", "coalesced_read", "entropy_burst", 0
+	"fault_fired", "one_byte_segments", "coalesced_read", "entropy_burst", "ephemeral_keys_validated", "tls13_key_schedule_validated", 0
 };
 
 /* ------------------------------------------------------------------ rng */
